@@ -1,6 +1,8 @@
 import MgpuProofs.C20_Cons3
+import MgpuProofs.C20_ConsW
 import MgpuProofs.C20_ParseLemmas
 import MgpuProofs.C20_TermLemmas
+import MgpuProofs.C20_Terminates
 /-! # C20 — property theorems (NVIDIA trace-driven simulation conserves work and terminates;
     trace parsing round-trips)
 
@@ -24,6 +26,17 @@ theorem conservation (legacy : Bool) (G S C : Nat) (trace : List Kernel) (evs : 
   rw [Q_init] at h
   exact h
 
+/-- **Conservation of warps, every run**: warps received by SMs (`SM.warpsCount`, what
+    `GetTotalWarpsCount` reports) + warps still waiting in the driver's and the GPUs' lists and buffers
+    = warps of the trace, for every shape, trace, schedule (before and after the fixes): every warp —
+    hence every thread block and kernel — is handed down at most once and none is dropped. -/
+theorem conservation_warps (legacy : Bool) (G S C : Nat) (trace : List Kernel) (evs : List Ev) :
+    receivedWarps (run (init legacy G S C trace) evs) + pendingWarps (run (init legacy G S C trace) evs)
+      = warpsOfTrace trace := by
+  have h := QW_run (init legacy G S C trace) evs
+  rw [QW_init] at h
+  exact h
+
 /-- Consequence: once nothing is pending above the sub-cores, they have received exactly the
     instructions of the trace (each warp's instructions exactly once). -/
 theorem conservation_when_drained (legacy : Bool) (G S C : Nat) (trace : List Kernel) (evs : List Ev)
@@ -39,12 +52,35 @@ example :
     pendingInsts s = 0 ∧ receivedInsts s = 33 ∧ finished s = true ∧ allAsleep s = true := by
   decide +kernel
 
-/-- The full termination statement: whenever the engine's queue is empty (no component or connection
-    has a pending tick) the run is finished — all kernels reported to the driver, every device, SM and
-    sub-core idle and back in its parent's free list, every buffer empty. -/
+/-- The full termination statement ("no stuck state unless finished"): for every platform shape
+    with at least one device, SM and sub-core, every trace and every interleaving of ticks of existing
+    components: whenever the engine's queue is empty (no component or connection has a pending tick)
+    the run is finished — all kernels reported to the driver (`unfinishedKernelsCount = 0`), every
+    device, SM and sub-core idle and back in its parent's free list, every list and port buffer empty. -/
 def TerminatesAllIdle (legacy : Bool) : Prop :=
   ∀ (G S C : Nat) (trace : List Kernel) (evs : List Ev), 1 ≤ G → 1 ≤ S → 1 ≤ C →
+    (∀ e ∈ evs, e.InRange G S C) →
     allAsleep (run (init legacy G S C trace) evs) = true → finished (run (init legacy G S C trace) evs) = true
+
+/-- **Termination with everything idle, repaired code (full statement).**  Proved with the two
+    invariants of `MgpuProofs/C20_InvDefs.lean`: `Inv1` (every child of every layer is in exactly one
+    place; unfinished = undispatched + handed out) and `Inv2` ("a component that sleeps with pending
+    work has a busy descendant or a message in flight to it": a non-empty inbox keeps its owner awake,
+    a sleeping connection has every port blocked on a full buffer whose owner is awake, a parent with
+    work and a free child is awake or blocked on its full outbox, a child with an unsent completion
+    likewise, a sub-core with instructions left is awake).  Includes degenerate traces: warps with 0
+    instructions, blocks with 0 warps, kernels with 0 blocks, no kernels at all. -/
+theorem terminates_all_idle : TerminatesAllIdle false := by
+  intro G S C trace evs hG hS hC hr ha
+  exact asleep_finished G S C trace evs hG hS hC hr ha
+
+/-- the hypotheses are met by a non-trivial run: 170 in-range events on 2×2×3 with a degenerate
+    trace end with an empty queue -/
+example :
+    let r := rounds 60 (init false 2 2 3 [[[0, 5], []], [], [[1, 2, 3, 4, 5, 6, 7]]], [])
+    (∀ e ∈ r.2, e.InRange 2 2 3) ∧ allAsleep (run (init false 2 2 3 [[[0, 5], []], [], [[1, 2, 3, 4, 5, 6, 7]]]) r.2) = true
+      ∧ r.2.length = 170 := by
+  decide +kernel
 
 /-- the 14 events the engine handles on the pre-fix code for one block with warps {0, 5} on one SM
     with two sub-cores (same order as the real serial engine; reproduced on the real code at t = 7) -/
@@ -55,7 +91,7 @@ def legacySchedule : List Ev := (rounds 20 (init true 1 1 2 [[[0, 5]]], [])).2
     because `dispatchThreadblocksToSubcores` returned `false`, and the empty warp never reports). -/
 theorem terminates_all_idle_legacy_refuted : ¬ TerminatesAllIdle true := by
   intro h
-  have := h 1 1 2 [[[0, 5]]] legacySchedule (by decide) (by decide) (by decide) (by decide +kernel)
+  have := h 1 1 2 [[[0, 5]]] legacySchedule (by decide) (by decide) (by decide) (by decide +kernel) (by decide +kernel)
   revert this
   decide +kernel
 
